@@ -155,7 +155,7 @@ func safeIn(ctx int, c strClass) (bool, string) {
 	case cLine:
 		switch c {
 		case clHostile, clUserGo:
-			return false, "may contain a newline, which ends the comment"
+			return false, "may contain a line break, which ends the comment, or a byte order mark, which the Go scanner refuses anywhere but at the start of a file (also inside comments)"
 		}
 		return true, ""
 	case cBlock:
@@ -541,16 +541,20 @@ func (a *spliceAnalysis) callPieces(c *ssa.Call, depth, idx int) []piece {
 	return one(clUnknown, "result of "+name)
 }
 
+// replacerHandlesNewline: the replacer rewrites everything that ends or breaks a // comment: the line feed,
+// and the byte order mark, which the Go scanner refuses anywhere but at the start of a file, comments included.
 func replacerHandlesNewline(v ssa.Value) bool {
 	for {
 		switch x := v.(type) {
 		case *ssa.Call:
 			if f := x.Call.StaticCallee(); f != nil && f.String() == "strings.NewReplacer" {
-				for _, o := range varargValues(x.Call.Args[0]) {
-					if k, ok := o.(*ssa.Const); ok && k.Value != nil && k.Value.Kind() == constant.String && constant.StringVal(k.Value) == "\n" {
-						return true
+				keys := map[string]bool{}
+				for i, o := range varargValues(x.Call.Args[0]) {
+					if k, ok := o.(*ssa.Const); ok && i%2 == 0 && k.Value != nil && k.Value.Kind() == constant.String {
+						keys[constant.StringVal(k.Value)] = true
 					}
 				}
+				return keys["\n"] && keys["\ufeff"]
 			}
 			return false
 		case *ssa.UnOp:
